@@ -13,7 +13,7 @@ import subprocess
 import sys
 
 ROOT = os.path.dirname(os.path.dirname(os.path.abspath(__file__)))
-REPO = "/repo"
+REPO = os.environ.get("VERIF_REPO", "/repo")      # a snapshot of /repo when run in the background (vp run --with-repo)
 PIDS = ["C%02d" % i for i in range(1, 21)]
 
 
